@@ -99,6 +99,9 @@ def template_histories(rng):
     eq = {'kind': 'equal', 'pick': [0.9] * 6, 'delta': [1] * 6, 'unknown': None}
     for nn in (1, 2):
         for where in ('before', 'small'):
+            evs = [('recv', {'kind': 'newer', 'pick': [0.9] * 6, 'delta': [2] * 6}), ('advance', 'past'), ('advance', 'small'), ('recv', older), ('idle', 40),
+                   ('recv', {'kind': 'identical', 'pick': [0.9] * 6, 'delta': [1] * 6, 'unknown': None}), ('advance', 'past'), ('idle', 300)]
+            out.append({'nodes': nn, 'events': evs, 'last_used': 3, 'publish_in_callback': False, 'template': True})
             evs = [('recv', {'kind': 'newer', 'pick': [0.9] * 6, 'delta': [2] * 6}), ('advance', 'past'), ('advance', where), ('recv', older), ('idle', 40), ('recv', eq),
                    ('idle', 500)]
             out.append({'nodes': nn, 'events': evs, 'last_used': 3, 'publish_in_callback': False, 'template': True})
@@ -127,7 +130,7 @@ def gen_history(rng):
 
 def gen_vector_spec(rng, nodes):
     """A vector described relative to the current local vector (resolved at run time)."""
-    kind = rng.choice(['newer', 'newer', 'older', 'equal', 'incomparable', 'unknown-node', 'self-too-much', 'self-too-much-twice', 'self-ok',
+    kind = rng.choice(['newer', 'newer', 'older', 'equal', 'identical', 'incomparable', 'unknown-node', 'self-too-much', 'self-too-much-twice', 'self-ok',
                        'no-seq', 'no-id', 'undecodable', 'undecodable-inner', 'wrong-length', 'empty'])
     big = rng.random() < 0.12       # sequence numbers are 64-bit: some vectors jump across the 2**16 / 2**32 width boundaries
     return {'kind': kind, 'pick': [rng.random() for _ in range(6)], 'unknown': [rng.random() < 0.5 for _ in range(4)] if rng.random() < 0.2 else None,
@@ -143,7 +146,12 @@ def resolve_vector(spec, local, self_seq, nodes):
 
     def cur(n):
         return local.get(nid(n), 0)
-    if kind in ('newer', 'older', 'equal', 'incomparable'):
+    if kind == 'identical':
+        # entry for entry the local vector (own entry included): heard during a suppression period it covers everything local
+        ents = [(n, cur(n)) for n in known if cur(n)] + ([(SELF, self_seq)] if self_seq else [])
+        if not ents:
+            ents = [(known[0], cur(known[0]) + 1)]
+    elif kind in ('newer', 'older', 'equal', 'incomparable'):
         for i, n in enumerate(known):
             if spec['pick'][i] < 0.25:
                 continue
@@ -245,6 +253,21 @@ def execute(ctx, hist, rng):
                 R['viol'].append(('publish-seq:before-start', f'new_data() before start() returned {got_seq}, expected {pre_seq} (last used {hist["last_used"]})', {'history': hist}))
         inst.start(the_app)
         await asyncio.sleep(0)
+        if pre:
+            # publications made before start() are announced as soon as the instance runs (promptly, not one sync interval later)
+            await asyncio.sleep(0.05)
+            early = [b for t, b in face.sent if True]
+            n_sync = 0
+            for b in early:
+                try:
+                    p_ = rc.strict_interest(b)
+                    if p_['name'][:len(BASE_PREFIX)] == BASE_PREFIX:
+                        n_sync += 1
+                except rc.Reject:
+                    pass
+            ctx.event('publication-before-start-announcement-checked')
+            if n_sync == 0:
+                R['viol'].append(('publish-not-announced-promptly:before-start', 'publications made before start() were not announced within 50 ms (virtual) of start()', {'history': hist}))
 
         def due_ms():
             return (inst.next_sync_timing - vtime.BASE - vtime.EPS) * 1000.0
